@@ -901,7 +901,14 @@ def r_bad_doc_reference(i):
         'type-unknown-namespace': ':type:`zq_nowhere.T`',
         'route-unknown-namespace': ':route:`zq_nowhere.r`',
         'field-of-alias': ':field:`%s.f`' % a,
+        'route-bad-version': ':route:`%s:x`' % r,
+        'route-empty-version': ':route:`%s:`' % r,
     }
+    if i.ns['imports'] and i.g.p(15):
+        other = i.g.choice(i.ns['imports'])
+        refs = {'field-imported-ns-type-only': ':field:`%s.ZqT`' % other,
+                'field-imported-ns-unknown-type': ':field:`%s.ZqNoSuchType.f`' % other,
+                'field-imported-ns-only': ':field:`%s.`' % other}
     if i.g.p(10):
         an = i.fresh('Zan')
         i.raw([(0, 'annotation %s = Deprecated()' % an)])
